@@ -5,23 +5,32 @@
 // randomness, and then replays exactly the same call lists sequentially on a
 // second cold object set: every result must be identical. Data races are
 // reported by the race detector (log parsed by the driver); panics inside a
-// goroutine are caught and reported as violations.
+// goroutine are caught and reported as violations; a goroutine that never
+// returns is reported after a bounded-progress confirmation (round.go).
+//
+// Files: c20.go (material, cold object sets, operations of the first versions,
+// observation of schedules), round.go (round kinds, barrier, sequential replay,
+// comparison, hang decision), singletons.go (first library calls of a process),
+// ops_derive.go (objects derived from a shared parent and then used),
+// ops_agree.go (key agreement run to the end), ops_legacy.go (SM2 scheme on
+// NIST curves: the library's math/big path), ops_modes.go (modes, AEADs, MACs
+// over the shared block; pools derived from shared pools).
 package c20
 
 import (
 	"bytes"
 	"crypto/cipher"
 	"crypto/ecdsa"
+	"crypto/elliptic"
 	"crypto/x509"
 	"crypto/x509/pkix"
 	"encoding/pem"
+	"errors"
 	"fmt"
 	"math/big"
 	"runtime"
-	"runtime/debug"
 	"sort"
 	"sync"
-	"sync/atomic"
 	"time"
 
 	gmcipher "github.com/emmansun/gmsm/cipher"
@@ -46,17 +55,25 @@ func init() {
 // material is everything a round needs to build cold object sets: key bytes and
 // artefacts made beforehand with WARM twins (never with the shared objects).
 type material struct {
-	sm2Key, sm2Peer, ecdhKey, ecdhPeer []byte
-	sm4Key                             []byte
-	signMasterDER, encMasterDER        []byte
-	uid                                []byte
-	hash, msg                          []byte
-	sm2Sig, sm2Ct                      []byte
-	sm9Sig, sm9Ct, sm9Wrapped          []byte
-	sm9WrapKey                         []byte
-	gcmCt, gcmNonce                    []byte
+	sm2Key, sm2Peer, ecdhKey, ecdhPeer   []byte
+	sm4Key                               []byte
+	signMasterDER, encMasterDER          []byte
+	uid                                  []byte
+	hash, msg                            []byte
+	sm2Sig, sm2Ct                        []byte
+	sm9Sig, sm9Ct, sm9Wrapped            []byte
+	sm9WrapKey                           []byte
+	gcmCt, gcmNonce                      []byte
 	poolPEM, interPEM, leafDER, leafBDER []byte
-	when                               time.Time
+	rootDERs, interDERs                  [][]byte
+	when                                 time.Time
+	// keys on curves other than sm2p256v1 (the library's math/big path) and artefacts made with warm twins
+	legAKey, legBKey, ecAKey []byte
+	legASig, legBSig, legACt []byte
+	legBCtASN1               []byte
+	ccmCt, ccmNonce          []byte
+	envForShared             []byte // an own SM2 key enveloped for the shared SM2 key
+	envKey                   []byte // its scalar
 }
 
 // objset is one cold set of shared objects.
@@ -78,6 +95,16 @@ type objset struct {
 	inters     *smx509.CertPool
 	leaf       *smx509.Certificate
 	leafB      *smx509.Certificate
+	// a pool filled with AddCert / AddCertWithConstraint from parsed certificates (no lazy parsing, shared
+	// *Certificate values, a constraint callback that the library may call from many goroutines)
+	rootsParsed *smx509.CertPool
+	// legacy-curve keys used with the SM2 scheme
+	legA, legB       *sm2.PrivateKey // A: NIST P-256 (see legacyCurveA), B: NIST P-384
+	legAPub, legBPub *ecdsa.PublicKey
+	ecA              *ecdsa.PrivateKey
+	// further AEADs made from the shared block
+	ccm   cipher.AEAD
+	gcm16 cipher.AEAD // 16-byte nonces: the counter is derived with GHASH
 }
 
 const hid = 0x01
@@ -110,6 +137,11 @@ func buildMaterial(r *mon.Rand) *material {
 		when: time.Date(2024, 6, 1, 0, 0, 0, 0, time.UTC),
 	}
 	seed := r.Uint64()
+	// scalars of the keys on NIST curves (valid for every curve used: top bit clear, odd)
+	m.legAKey, m.ecAKey, m.envKey = scalar(r), scalar(r), scalar(r)
+	m.legBKey = r.Bytes(48)
+	m.legBKey[0] &= 0x7f
+	m.legBKey[47] |= 1
 	// SM9 masters
 	sm, err := sm9.GenerateSignMasterKey(script(seed, "signmaster"))
 	must(err)
@@ -133,6 +165,20 @@ func buildMaterial(r *mon.Rand) *material {
 	must(err)
 	m.gcmNonce = r.Bytes(12)
 	m.gcmCt = w.gcm.Seal(nil, m.gcmNonce, m.msg, m.uid)
+	m.ccmNonce = r.Bytes(w.ccm.NonceSize())
+	m.ccmCt = w.ccm.Seal(nil, m.ccmNonce, m.msg, m.uid)
+	m.legASig, err = sm2.SignASN1(script(seed, "legAsig"), w.legA, m.hash, nil)
+	must(err)
+	m.legBSig, err = sm2.SignASN1(script(seed, "legBsig"), w.legB, m.hash, nil)
+	must(err)
+	m.legACt, err = sm2.Encrypt(script(seed, "legAct"), w.legAPub, m.msg, nil)
+	must(err)
+	m.legBCtASN1, err = sm2.EncryptASN1(script(seed, "legBct"), w.legBPub, m.msg)
+	must(err)
+	ek, err := sm2.NewPrivateKey(m.envKey)
+	must(err)
+	m.envForShared, err = sm2.MarshalEnvelopedPrivateKey(script(seed, "env"), w.sm2Pub, ek)
+	must(err)
 	// a three-level SM2 PKI; its PEM goes into lazily parsed pools
 	mk := func(b []byte) *sm2.PrivateKey { k, err := sm2.NewPrivateKey(b); must(err); return k }
 	rootK, intK, leafK := mk(scalar(r)), mk(scalar(r)), mk(scalar(r))
@@ -168,6 +214,7 @@ func buildMaterial(r *mon.Rand) *material {
 	must(err)
 	m.leafBDER, err = smx509.CreateCertificate(script(seed, "leafB"), lbt, ibt, &leafBK.PublicKey, intBK)
 	must(err)
+	m.rootDERs, m.interDERs = [][]byte{rootDER, rootBDER}, [][]byte{interDER, interBDER}
 	m.poolPEM = append(pem.EncodeToMemory(&pem.Block{Type: "CERTIFICATE", Bytes: rootDER}), pem.EncodeToMemory(&pem.Block{Type: "CERTIFICATE", Bytes: rootBDER})...)
 	m.interPEM = append(pem.EncodeToMemory(&pem.Block{Type: "CERTIFICATE", Bytes: interDER}), pem.EncodeToMemory(&pem.Block{Type: "CERTIFICATE", Bytes: interBDER})...)
 	return m
@@ -218,6 +265,14 @@ func (m *material) cold() *objset {
 	must(err)
 	o.gcm, err = cipher.NewGCM(o.block)
 	must(err)
+	o.ccm, err = gmcipher.NewCCM(o.block)
+	must(err)
+	o.gcm16, err = cipher.NewGCMWithNonceSize(o.block, 16)
+	must(err)
+	o.legA, o.legB = legacyKey(legacyCurveA(), m.legAKey), legacyKey(elliptic.P384(), m.legBKey)
+	o.legAPub = &ecdsa.PublicKey{Curve: o.legA.Curve, X: new(big.Int).Set(o.legA.X), Y: new(big.Int).Set(o.legA.Y)}
+	o.legBPub = &ecdsa.PublicKey{Curve: o.legB.Curve, X: new(big.Int).Set(o.legB.X), Y: new(big.Int).Set(o.legB.Y)}
+	o.ecA = &legacyKey(legacyCurveA(), m.ecAKey).PrivateKey
 	if m.poolPEM != nil {
 		o.roots, o.inters = smx509.NewCertPool(), smx509.NewCertPool()
 		if !o.roots.AppendCertsFromPEM(m.poolPEM) || !o.inters.AppendCertsFromPEM(m.interPEM) {
@@ -227,8 +282,55 @@ func (m *material) cold() *objset {
 		must(err)
 		o.leafB, err = smx509.ParseCertificate(m.leafBDER)
 		must(err)
+		o.rootsParsed = smx509.NewCertPool()
+		for i, der := range m.rootDERs {
+			crt, err := smx509.ParseCertificate(der)
+			must(err)
+			if i == 0 {
+				o.rootsParsed.AddCert(crt)
+			} else {
+				o.rootsParsed.AddCertWithConstraint(crt, chainConstraint)
+			}
+		}
 	}
 	return o
+}
+
+// chainConstraint is the extra constraint of the second root of the parsed pool: the library documents that it may be
+// called from several goroutines at once. It only reads the candidate chain (leaf first, without the root).
+func chainConstraint(chain []*smx509.Certificate) error {
+	if len(chain) == 0 {
+		return errors.New("c20: empty chain handed to the pool constraint")
+	}
+	for _, crt := range chain {
+		if crt == nil || len(crt.Raw) == 0 || crt.Subject.CommonName == "" {
+			return errors.New("c20: damaged certificate handed to the pool constraint")
+		}
+	}
+	return nil
+}
+
+// legacyCurveA is the curve of the first shared legacy key: NIST P-256. In builds with the purego tag the standard
+// library's P-256 has no order inversion (crypto/elliptic panics "nistec rejected normalized scalar" in the Inverse
+// method the library's legacy signer uses - a limitation of the Go toolchain, which the library's own P-256 tests
+// acknowledge with their build constraint): there NIST P-521 takes its place. Decided by a probe of the standard
+// library alone.
+var legacyCurveA = sync.OnceValue(func() elliptic.Curve {
+	inv, ok := elliptic.P256().(interface{ Inverse(k *big.Int) *big.Int })
+	if ok && mon.Try(func() { inv.Inverse(big.NewInt(2)) }) != nil {
+		return elliptic.P521()
+	}
+	return elliptic.P256()
+})
+
+// legacyKey builds an SM2-scheme private key on a curve other than sm2p256v1 from a scalar. Only the standard
+// library's curve arithmetic is used: the key object itself stays cold.
+func legacyKey(curve elliptic.Curve, d []byte) *sm2.PrivateKey {
+	k := new(sm2.PrivateKey)
+	k.Curve = curve
+	k.D = new(big.Int).SetBytes(d)
+	k.X, k.Y = curve.ScalarBaseMult(d)
+	return k
 }
 
 // userKeyDER encodes SEQUENCE { BIT STRING userKey, BIT STRING masterPublicKey }, the form from which the
@@ -246,6 +348,7 @@ func userKeyDER(user, master []byte) []byte {
 // encoded as "ERR:<text>").
 type op struct {
 	name string
+	fam  string // the shared parent object the call works on ("own" = objects only the caller knows, "" = stateless)
 	f    func(o *objset, m *material, seed uint64) []byte
 }
 
@@ -263,30 +366,58 @@ func bl(v bool) []byte {
 	return []byte{0}
 }
 
-var ops = []op{
-	{"sm2.SignASN1", func(o *objset, m *material, s uint64) []byte {
+// ops is the operation table of the rounds: the operations of the first versions (baseOps) followed by the derivation,
+// key-agreement, legacy-curve and mode/pool operations of the other files of this package.
+var ops = concatOps(baseOps, deriveOps, agreeOps, legacyOps, modeOps)
+
+func concatOps(parts ...[]op) []op {
+	var out []op
+	for _, p := range parts {
+		out = append(out, p...)
+	}
+	return out
+}
+
+// families are the shared parent objects an operation can work on; a "family round" makes the first call of every
+// goroutine an operation of ONE family, so that derivations from a parent, its accessors and its first uses collide.
+// The family "own" is the set of operations on objects that only the calling goroutine knows: their first uses
+// collide with the first uses of OTHER objects of the same kind (scratch space shared between objects).
+var families = []string{"sm2", "legacy", "ecdh", "sm9sign", "sm9enc", "block", "pool", "own"}
+
+func opsOfFamily(fam string) []int {
+	var idx []int
+	for i := range ops {
+		if ops[i].fam == fam {
+			idx = append(idx, i)
+		}
+	}
+	return idx
+}
+
+var baseOps = []op{
+	{"sm2.SignASN1", "sm2", func(o *objset, m *material, s uint64) []byte {
 		return res(sm2.SignASN1(script(s, "a"), o.sm2Priv, m.hash, nil))
 	}},
-	{"sm2.PrivateKey.Sign(SM2 opts)", func(o *objset, m *material, s uint64) []byte {
+	{"sm2.PrivateKey.Sign(SM2 opts)", "sm2", func(o *objset, m *material, s uint64) []byte {
 		return res(o.sm2Priv.Sign(script(s, "b"), m.msg, sm2.DefaultSM2SignerOpts))
 	}},
-	{"sm2.VerifyASN1", func(o *objset, m *material, s uint64) []byte {
+	{"sm2.VerifyASN1", "sm2", func(o *objset, m *material, s uint64) []byte {
 		return bl(sm2.VerifyASN1(o.sm2Pub, m.hash, m.sm2Sig))
 	}},
-	{"sm2.Encrypt", func(o *objset, m *material, s uint64) []byte {
+	{"sm2.Encrypt", "sm2", func(o *objset, m *material, s uint64) []byte {
 		return res(sm2.Encrypt(script(s, "c"), o.sm2Pub, m.msg, nil))
 	}},
-	{"sm2.PrivateKey.Decrypt", func(o *objset, m *material, s uint64) []byte {
+	{"sm2.PrivateKey.Decrypt", "sm2", func(o *objset, m *material, s uint64) []byte {
 		return res(o.sm2Priv.Decrypt(nil, m.sm2Ct, nil))
 	}},
-	{"sm2.PrivateKey.ECDH", func(o *objset, m *material, s uint64) []byte {
+	{"sm2.PrivateKey.ECDH", "sm2", func(o *objset, m *material, s uint64) []byte {
 		k, err := o.sm2Priv.ECDH()
 		if err != nil {
 			return res(nil, err)
 		}
 		return k.PublicKey().Bytes()
 	}},
-	{"sm2.KeyExchange.Init", func(o *objset, m *material, s uint64) []byte {
+	{"sm2.KeyExchange.Init", "sm2", func(o *objset, m *material, s uint64) []byte {
 		ke, err := sm2.NewKeyExchange(o.sm2Priv, o.sm2PeerPub, m.uid, []byte("peer"), 32, true)
 		if err != nil {
 			return res(nil, err)
@@ -297,58 +428,58 @@ var ops = []op{
 		}
 		return append(r.X.Bytes(), r.Y.Bytes()...)
 	}},
-	{"ecdh.PublicKey", func(o *objset, m *material, s uint64) []byte { return o.ecdhPriv.PublicKey().Bytes() }},
-	{"ecdh.ECDH", func(o *objset, m *material, s uint64) []byte { return res(o.ecdhPriv.ECDH(o.ecdhPeer)) }},
-	{"ecdh.GenerateKey", func(o *objset, m *material, s uint64) []byte {
+	{"ecdh.PublicKey", "ecdh", func(o *objset, m *material, s uint64) []byte { return o.ecdhPriv.PublicKey().Bytes() }},
+	{"ecdh.ECDH", "ecdh", func(o *objset, m *material, s uint64) []byte { return res(o.ecdhPriv.ECDH(o.ecdhPeer)) }},
+	{"ecdh.GenerateKey", "", func(o *objset, m *material, s uint64) []byte {
 		k, err := ecdh.P256().GenerateKey(script(s, "e"))
 		if err != nil {
 			return res(nil, err)
 		}
 		return k.Bytes()
 	}},
-	{"sm9.SignASN1", func(o *objset, m *material, s uint64) []byte {
+	{"sm9.SignASN1", "sm9sign", func(o *objset, m *material, s uint64) []byte {
 		return res(sm9.SignASN1(script(s, "f"), o.signUser, m.hash))
 	}},
-	{"sm9.VerifyASN1", func(o *objset, m *material, s uint64) []byte {
+	{"sm9.VerifyASN1", "sm9sign", func(o *objset, m *material, s uint64) []byte {
 		return bl(sm9.VerifyASN1(o.signPub, m.uid, hid, m.hash, m.sm9Sig))
 	}},
-	{"sm9.SignMaster.GenerateUserKey", func(o *objset, m *material, s uint64) []byte {
+	{"sm9.SignMaster.GenerateUserKey", "sm9sign", func(o *objset, m *material, s uint64) []byte {
 		k, err := o.signMaster.GenerateUserKey([]byte("other"), hid)
 		if err != nil {
 			return res(nil, err)
 		}
 		return k.Bytes()
 	}},
-	{"sm9.SignMaster.PublicKey", func(o *objset, m *material, s uint64) []byte { return o.signMaster.PublicKey().Bytes() }},
-	{"sm9.SignPrivateKey.MasterPublic", func(o *objset, m *material, s uint64) []byte { return o.signUser.MasterPublic().Bytes() }},
-	{"sm9.WrapKey", func(o *objset, m *material, s uint64) []byte {
+	{"sm9.SignMaster.PublicKey", "sm9sign", func(o *objset, m *material, s uint64) []byte { return o.signMaster.PublicKey().Bytes() }},
+	{"sm9.SignPrivateKey.MasterPublic", "sm9sign", func(o *objset, m *material, s uint64) []byte { return o.signUser.MasterPublic().Bytes() }},
+	{"sm9.WrapKey", "sm9enc", func(o *objset, m *material, s uint64) []byte {
 		k, c, err := o.encPub.WrapKey(script(s, "g"), m.uid, hidEnc, 32)
 		return res(append(k, c...), err)
 	}},
-	{"sm9.UnwrapKey", func(o *objset, m *material, s uint64) []byte {
+	{"sm9.UnwrapKey", "sm9enc", func(o *objset, m *material, s uint64) []byte {
 		return res(o.encUser.UnwrapKey(m.uid, m.sm9Wrapped, 32))
 	}},
-	{"sm9.Encrypt", func(o *objset, m *material, s uint64) []byte {
+	{"sm9.Encrypt", "sm9enc", func(o *objset, m *material, s uint64) []byte {
 		return res(sm9.Encrypt(script(s, "h"), o.encPub, m.uid, hidEnc, m.msg, nil))
 	}},
-	{"sm9.Decrypt", func(o *objset, m *material, s uint64) []byte {
+	{"sm9.Decrypt", "sm9enc", func(o *objset, m *material, s uint64) []byte {
 		return res(sm9.Decrypt(o.encUser, m.uid, m.sm9Ct, nil))
 	}},
-	{"sm9.EncMaster.GenerateUserKey", func(o *objset, m *material, s uint64) []byte {
+	{"sm9.EncMaster.GenerateUserKey", "sm9enc", func(o *objset, m *material, s uint64) []byte {
 		k, err := o.encMaster.GenerateUserKey([]byte("other"), hidEnc)
 		if err != nil {
 			return res(nil, err)
 		}
 		return k.Bytes()
 	}},
-	{"sm9.KeyExchange.Init", func(o *objset, m *material, s uint64) []byte {
+	{"sm9.KeyExchange.Init", "sm9enc", func(o *objset, m *material, s uint64) []byte {
 		ke := o.encUser.NewKeyExchange(m.uid, []byte("peer"), 16, true)
 		defer ke.Destroy()
 		return res(ke.InitKeyExchange(script(s, "i"), hidEnc))
 	}},
 	// operations on objects that only this goroutine knows: their first use runs concurrently with the first use of
 	// OTHER objects, which exposes scratch space shared between objects (package-level buffers, pools)
-	{"own sm2 key: NewPrivateKey+first SignASN1+VerifyASN1", func(o *objset, m *material, s uint64) []byte {
+	{"own sm2 key: NewPrivateKey+first SignASN1+VerifyASN1", "own", func(o *objset, m *material, s uint64) []byte {
 		k, err := sm2.NewPrivateKey(scalar(mon.NewRand(s, "own-sm2")))
 		if err != nil {
 			return res(nil, err)
@@ -359,7 +490,7 @@ var ops = []op{
 		}
 		return append(sig, bl(sm2.VerifyASN1(&k.PublicKey, m.hash, sig))...)
 	}},
-	{"own sm2 key: first Encrypt+Decrypt (300 bytes)", func(o *objset, m *material, s uint64) []byte {
+	{"own sm2 key: first Encrypt+Decrypt (300 bytes)", "own", func(o *objset, m *material, s uint64) []byte {
 		r := mon.NewRand(s, "own-sm2-enc")
 		k, err := sm2.NewPrivateKey(scalar(r))
 		if err != nil {
@@ -376,7 +507,7 @@ var ops = []op{
 		}
 		return append(ct, bl(bytes.Equal(pt, msg))...)
 	}},
-	{"own ecdh key: NewPrivateKey+PublicKey+ECDH", func(o *objset, m *material, s uint64) []byte {
+	{"own ecdh key: NewPrivateKey+PublicKey+ECDH", "own", func(o *objset, m *material, s uint64) []byte {
 		k, err := ecdh.P256().NewPrivateKey(scalar(mon.NewRand(s, "own-ecdh")))
 		if err != nil {
 			return res(nil, err)
@@ -384,7 +515,7 @@ var ops = []op{
 		sh, err := k.ECDH(o.ecdhPeer)
 		return res(append(k.PublicKey().Bytes(), sh...), err)
 	}},
-	{"own sm9 user key: first SignASN1+VerifyASN1", func(o *objset, m *material, s uint64) []byte {
+	{"own sm9 user key: first SignASN1+VerifyASN1", "own", func(o *objset, m *material, s uint64) []byte {
 		uid := []byte(fmt.Sprintf("own-%x", s))
 		mk, err := sm9.UnmarshalSignMasterPrivateKeyASN1(m.signMasterDER)
 		if err != nil {
@@ -400,7 +531,7 @@ var ops = []op{
 		}
 		return append(sig, bl(sm9.VerifyASN1(mk.PublicKey(), uid, hid, m.hash, sig))...)
 	}},
-	{"own sm4 block: NewCipher+NewGCM+Seal/Open", func(o *objset, m *material, s uint64) []byte {
+	{"own sm4 block: NewCipher+NewGCM+Seal/Open", "own", func(o *objset, m *material, s uint64) []byte {
 		r := mon.NewRand(s, "own-sm4")
 		b, err := sm4.NewCipher(r.Bytes(16))
 		if err != nil {
@@ -418,11 +549,11 @@ var ops = []op{
 		}
 		return ct
 	}},
-	{"sm3.Kdf (>= 8 blocks, not a multiple of 4)", func(o *objset, m *material, s uint64) []byte {
+	{"sm3.Kdf (>= 8 blocks, not a multiple of 4)", "", func(o *objset, m *material, s uint64) []byte {
 		r := mon.NewRand(s, "kdf8")
 		return sm3.Kdf(r.Bytes(r.Range(1, 130)), 32*r.Range(8, 20)+r.Range(1, 95))
 	}},
-	{"sm4.Block.Encrypt/Decrypt", func(o *objset, m *material, s uint64) []byte {
+	{"sm4.Block.Encrypt/Decrypt", "block", func(o *objset, m *material, s uint64) []byte {
 		r := mon.NewRand(s, "j")
 		buf := r.Bytes(16)
 		out := make([]byte, 32)
@@ -430,14 +561,14 @@ var ops = []op{
 		o.block.Decrypt(out[16:], buf)
 		return out
 	}},
-	{"shared GCM Seal", func(o *objset, m *material, s uint64) []byte {
+	{"shared GCM Seal", "block", func(o *objset, m *material, s uint64) []byte {
 		r := mon.NewRand(s, "k")
 		return o.gcm.Seal(nil, r.Bytes(12), r.Bytes(r.Range(0, 200)), m.uid)
 	}},
-	{"shared GCM Open", func(o *objset, m *material, s uint64) []byte {
+	{"shared GCM Open", "block", func(o *objset, m *material, s uint64) []byte {
 		return res(o.gcm.Open(nil, m.gcmNonce, m.gcmCt, m.uid))
 	}},
-	{"NewGCM+Seal", func(o *objset, m *material, s uint64) []byte {
+	{"NewGCM+Seal", "block", func(o *objset, m *material, s uint64) []byte {
 		r := mon.NewRand(s, "l")
 		a, err := cipher.NewGCM(o.block)
 		if err != nil {
@@ -445,7 +576,7 @@ var ops = []op{
 		}
 		return a.Seal(nil, r.Bytes(12), r.Bytes(r.Range(0, 300)), nil)
 	}},
-	{"NewCCM+Seal", func(o *objset, m *material, s uint64) []byte {
+	{"NewCCM+Seal", "block", func(o *objset, m *material, s uint64) []byte {
 		r := mon.NewRand(s, "m")
 		a, err := gmcipher.NewCCM(o.block)
 		if err != nil {
@@ -453,31 +584,31 @@ var ops = []op{
 		}
 		return a.Seal(nil, r.Bytes(a.NonceSize()), r.Bytes(r.Range(0, 100)), m.uid)
 	}},
-	{"NewCBCEncrypter+CryptBlocks", func(o *objset, m *material, s uint64) []byte {
+	{"NewCBCEncrypter+CryptBlocks", "block", func(o *objset, m *material, s uint64) []byte {
 		r := mon.NewRand(s, "n")
 		buf := r.Bytes(16 * r.Range(1, 20))
 		cipher.NewCBCEncrypter(o.block, r.Bytes(16)).CryptBlocks(buf, buf)
 		return buf
 	}},
-	{"NewCBCDecrypter+CryptBlocks", func(o *objset, m *material, s uint64) []byte {
+	{"NewCBCDecrypter+CryptBlocks", "block", func(o *objset, m *material, s uint64) []byte {
 		r := mon.NewRand(s, "o")
 		buf := r.Bytes(16 * r.Range(1, 20))
 		cipher.NewCBCDecrypter(o.block, r.Bytes(16)).CryptBlocks(buf, buf)
 		return buf
 	}},
-	{"NewCTR+XORKeyStream", func(o *objset, m *material, s uint64) []byte {
+	{"NewCTR+XORKeyStream", "block", func(o *objset, m *material, s uint64) []byte {
 		r := mon.NewRand(s, "p")
 		buf := r.Bytes(r.Range(1, 300))
 		cipher.NewCTR(o.block, r.Bytes(16)).XORKeyStream(buf, buf)
 		return buf
 	}},
-	{"NewECBEncrypter+CryptBlocks", func(o *objset, m *material, s uint64) []byte {
+	{"NewECBEncrypter+CryptBlocks", "block", func(o *objset, m *material, s uint64) []byte {
 		r := mon.NewRand(s, "q")
 		buf := r.Bytes(16 * r.Range(1, 20))
 		gmcipher.NewECBEncrypter(o.block).CryptBlocks(buf, buf)
 		return buf
 	}},
-	{"NewXTSEncrypter+CryptBlocks", func(o *objset, m *material, s uint64) []byte {
+	{"NewXTSEncrypter+CryptBlocks", "", func(o *objset, m *material, s uint64) []byte {
 		r := mon.NewRand(s, "r")
 		buf := r.Bytes(r.Range(16, 200))
 		x, err := gmcipher.NewXTSEncrypterWithSector(sm4.NewCipher, m.sm4Key, m.sm2Key[:16], uint64(r.Intn(1000)))
@@ -487,18 +618,18 @@ var ops = []op{
 		x.CryptBlocks(buf, buf)
 		return buf
 	}},
-	{"sm3.New/Sum", func(o *objset, m *material, s uint64) []byte {
+	{"sm3.New/Sum", "", func(o *objset, m *material, s uint64) []byte {
 		r := mon.NewRand(s, "s")
 		h := sm3.New()
 		h.Write(r.Bytes(r.Range(0, 500)))
 		d := sm3.Sum(m.msg)
 		return h.Sum(d[:])
 	}},
-	{"sm3.Kdf", func(o *objset, m *material, s uint64) []byte {
+	{"sm3.Kdf", "", func(o *objset, m *material, s uint64) []byte {
 		r := mon.NewRand(s, "t")
 		return sm3.Kdf(r.Bytes(r.Range(1, 100)), r.Range(1, 400))
 	}},
-	{"smx509.Verify(shared pools)", func(o *objset, m *material, s uint64) []byte {
+	{"smx509.Verify(shared pools)", "pool", func(o *objset, m *material, s uint64) []byte {
 		leaf := o.leaf
 		if s&1 == 1 {
 			leaf = o.leafB
@@ -507,161 +638,8 @@ var ops = []op{
 		if err != nil {
 			return res(nil, err)
 		}
-		var b bytes.Buffer
-		for _, ch := range chains {
-			for _, c := range ch {
-				b.WriteString(c.Subject.CommonName + ">")
-			}
-			b.WriteString(";")
-		}
-		return b.Bytes()
+		return chainNames(chains)
 	}},
-}
-
-type call struct {
-	op   int
-	seed uint64
-}
-
-type outcome struct {
-	res      [][]byte
-	panicked string
-	t0, t1   int64 // observation only: interval of the goroutine's first call
-	rank     int64
-}
-
-func runList(o *objset, m *material, list []call, out *outcome, order *atomic.Int64, firstBarrier func()) {
-	defer func() {
-		if r := recover(); r != nil {
-			out.panicked = fmt.Sprintf("%v\n%s", r, debug.Stack())
-		}
-		if order != nil {
-			out.rank = order.Add(1)
-		}
-	}()
-	for i, cl := range list {
-		if i == 0 {
-			if firstBarrier != nil {
-				firstBarrier()
-			}
-			out.t0 = time.Now().UnixNano()
-		}
-		r := ops[cl.op].f(o, m, cl.seed)
-		if i == 0 {
-			out.t1 = time.Now().UnixNano()
-		}
-		out.res = append(out.res, r)
-	}
-}
-
-func roundsWL(x *mon.Ctx) {
-	rounds := x.Scale(10, 40)
-	for i := 0; i < x.Shards*rounds; i++ {
-		kind := "fresh-objects"
-		if i < x.Shards {
-			// the first case of every process: the process-wide singletons (curve parameters,
-			// generator tables, closedChan) are cold and are first touched concurrently
-			kind = "process-singletons"
-		}
-		c := x.Begin("round #%d kind=%s", i, kind)
-		if c == nil {
-			continue
-		}
-		oneRound(c, kind)
-		c.End()
-	}
-}
-
-func oneRound(c *mon.Case, kind string) {
-	ng := []int{4, 8, 16}[c.R.Intn(3)]
-	perG := c.R.Range(3, 8)
-	var m *material
-	var shared *objset
-	if kind == "process-singletons" {
-		// no library call may happen before the barrier opens: material is built inside the goroutines' first op
-		m = nil
-	} else {
-		var p *mon.PanicInfo
-		if p = mon.Try(func() { m = buildMaterial(c.R); shared = m.cold() }); p != nil {
-			c.Fail("panic", "setup: %v\n%s", p.Value, p.Stack)
-			return
-		}
-	}
-	lists := make([][]call, ng)
-	for g := range lists {
-		for k := 0; k < perG; k++ {
-			lists[g] = append(lists[g], call{op: c.R.Intn(len(ops)), seed: c.R.Uint64()})
-		}
-		// make first-use collisions likely: the first call of several goroutines is the same lazily caching op
-		if g%2 == 0 {
-			lists[g][0].op = lists[0][0].op
-		}
-	}
-	if kind == "process-singletons" {
-		singletonRound(c, ng)
-		return
-	}
-	// every third round is pool-heavy: each goroutine verifies a leaf against the shared pools, leaves of the two
-	// same-subject roots alternating, so that candidate selection for one name runs concurrently in both directions
-	if c.R.Intn(3) == 0 {
-		vi := -1
-		for i := range ops {
-			if ops[i].name == "smx509.Verify(shared pools)" {
-				vi = i
-			}
-		}
-		for g := range lists {
-			for _, k := range []int{0, len(lists[g]) - 1} {
-				lists[g][k] = call{op: vi, seed: c.R.Uint64()&^1 | uint64((g+k)&1)}
-			}
-		}
-	}
-	outs := make([]outcome, ng)
-	var wg sync.WaitGroup
-	var ready sync.WaitGroup
-	start := make(chan struct{})
-	var order atomic.Int64
-	ready.Add(ng)
-	for g := 0; g < ng; g++ {
-		wg.Add(1)
-		go func(g int) {
-			defer wg.Done()
-			runList(shared, m, lists[g], &outs[g], &order, func() { ready.Done(); <-start })
-		}(g)
-	}
-	ready.Wait()
-	close(start)
-	wg.Wait()
-	// sequential replay on a second cold set
-	var seq *objset
-	if p := mon.Try(func() { seq = m.cold() }); p != nil {
-		c.Fail("panic", "setup of the sequential object set: %v", p.Value)
-		return
-	}
-	firstOps := map[string]int{}
-	for g := 0; g < ng; g++ {
-		var so outcome
-		runList(seq, m, lists[g], &so, nil, nil)
-		if outs[g].panicked != "" {
-			c.Fail("panic", "goroutine %d panicked in the concurrent phase (ops %v): %s", g, names(lists[g]), outs[g].panicked)
-			continue
-		}
-		if so.panicked != "" {
-			c.Fail("panic", "sequential replay panicked (ops %v): %s", names(lists[g]), so.panicked)
-			continue
-		}
-		for k := range lists[g] {
-			c.Event("results_compared", 1)
-			if !bytes.Equal(outs[g].res[k], so.res[k]) {
-				c.Fail("mismatch", "goroutine %d call %d (%s): concurrent result %x differs from the sequential result %x", g, k, ops[lists[g][k].op].name, outs[g].res[k], so.res[k])
-			}
-			if bytes.HasPrefix(so.res[k], []byte("ERR:")) {
-				c.Fail("reject", "call %s failed in the sequential replay: %s", ops[lists[g][k].op].name, so.res[k])
-			}
-		}
-		firstOps[ops[lists[g][0].op].name]++
-	}
-	observe(c, outs, firstOps, ng)
 }
 
 func names(l []call) []string {
@@ -717,111 +695,6 @@ func observe(c *mon.Case, outs []outcome, firstOps map[string]int, ng int) {
 	for _, n := range contended {
 		c.Class("first-use contended: %s", n)
 	}
-}
-
-// singletonRound: the very first library calls of this process happen concurrently.
-func singletonRound(c *mon.Case, ng int) {
-	firsts := []func(r *mon.Rand) []byte{
-		func(r *mon.Rand) []byte { return sm2.P256().Params().N.Bytes() },
-		func(r *mon.Rand) []byte {
-			k, err := sm2.NewPrivateKey(fixedScalar(1))
-			must(err)
-			return append(k.X.Bytes(), k.Y.Bytes()...)
-		},
-		func(r *mon.Rand) []byte {
-			k, err := sm2.GenerateKey(script(7, "s1"))
-			must(err)
-			return k.D.Bytes()
-		},
-		func(r *mon.Rand) []byte {
-			k, err := ecdh.P256().GenerateKey(script(7, "s2"))
-			must(err)
-			return k.PublicKey().Bytes()
-		},
-		func(r *mon.Rand) []byte {
-			k, err := sm9.GenerateSignMasterKey(script(7, "s3"))
-			must(err)
-			return k.PublicKey().Bytes()
-		},
-		func(r *mon.Rand) []byte {
-			k, err := sm9.GenerateEncryptMasterKey(script(7, "s4"))
-			must(err)
-			return k.PublicKey().Bytes()
-		},
-		func(r *mon.Rand) []byte {
-			k, err := sm9.GenerateEncryptMasterKey(script(7, "s5"))
-			must(err)
-			u, err := k.GenerateUserKey([]byte("u"), hidEnc)
-			must(err)
-			return u.Bytes()
-		},
-		func(r *mon.Rand) []byte {
-			k, err := sm9.GenerateSignMasterKey(script(7, "s6"))
-			must(err)
-			u, err := k.GenerateUserKey([]byte("u"), hid)
-			must(err)
-			s, err := sm9.SignASN1(script(7, "s7"), u, []byte("0123456789abcdef0123456789abcdef"))
-			must(err)
-			return s
-		},
-		func(r *mon.Rand) []byte {
-			x, y := sm2.P256().ScalarBaseMult(fixedScalar(5))
-			return append(x.Bytes(), y.Bytes()...)
-		},
-		func(r *mon.Rand) []byte {
-			k, err := sm2.NewPrivateKey(fixedScalar(9))
-			must(err)
-			s, err := sm2.SignASN1(script(7, "s8"), k, []byte("0123456789abcdef0123456789abcdef"), nil)
-			must(err)
-			return s
-		},
-	}
-	// two goroutines per first-use operation, so that every process-wide singleton is raced in every process
-	ng = 2 * len(firsts)
-	outs := make([][]byte, ng)
-	pan := make([]string, ng)
-	var wg, ready sync.WaitGroup
-	start := make(chan struct{})
-	ready.Add(ng)
-	pick := make([]int, ng)
-	rot := c.R.Intn(len(firsts))
-	for g := range pick {
-		pick[g] = (g + rot) % len(firsts)
-	}
-	for g := 0; g < ng; g++ {
-		wg.Add(1)
-		go func(g int) {
-			defer wg.Done()
-			defer func() {
-				if r := recover(); r != nil {
-					pan[g] = fmt.Sprintf("%v\n%s", r, debug.Stack())
-				}
-			}()
-			ready.Done()
-			<-start
-			outs[g] = firsts[pick[g]](nil)
-		}(g)
-	}
-	ready.Wait()
-	close(start)
-	wg.Wait()
-	for g := 0; g < ng; g++ {
-		if pan[g] != "" {
-			c.Fail("panic", "goroutine %d panicked during first use of the process-wide singletons: %s", g, pan[g])
-			continue
-		}
-		var want []byte
-		if p := mon.Try(func() { want = firsts[pick[g]](nil) }); p != nil {
-			c.Fail("panic", "sequential replay: %v", p.Value)
-			continue
-		}
-		c.Event("results_compared", 1)
-		if !bytes.Equal(outs[g], want) {
-			c.Fail("mismatch", "first-use call %d: concurrent result %x differs from the sequential result %x", pick[g], outs[g], want)
-		}
-	}
-	c.Event("singleton_rounds", 1)
-	c.Class("singletons/procs%d/first=%d", runtime.GOMAXPROCS(0), pick[0])
 }
 
 func fixedScalar(v byte) []byte {
